@@ -354,3 +354,15 @@ def ne0_at(body, pt, lin):
                 if d.is_const() and b2 - d.c <= -1:
                     return blk
     return None
+
+
+def const_val(body, op):
+    """integer value of an operand when it is a constant, possibly reached through locals (`let zero = 0; store(zero)`); else None"""
+    if op is None:
+        return None
+    if "int" in op:
+        return op["int"]
+    f = evaluator(body).operand(op)
+    if f is not TOP and f.is_const() and f.c.denominator == 1:
+        return int(f.c)
+    return None
